@@ -205,8 +205,17 @@ func burstOf(name string, failBlock int, heads []int) *sched.Scenario {
 }
 
 // ---- S3: k publishers, concurrency limit
-func multi(k, limit int) *sched.Scenario {
+func multi(k, limit int) *sched.Scenario { return multiOf(k, limit, 2, false) }
+
+// multiOf: k publishers, each announced `heads` times by its own thread, under
+// a limit of concurrent announce-triggered syncs. With failFirst the first
+// block request of publisher 0 fails: a failing sync has to give its slot back
+// exactly once (not keep it, not give back somebody else's as well).
+func multiOf(k, limit, heads int, failFirst bool) *sched.Scenario {
 	name := fmt.Sprintf("S3-pubs%d-limit%d", k, limit)
+	if failFirst {
+		name = fmt.Sprintf("S7-pubs%d-limit%d-first-sync-of-pub0-fails", k, limit)
+	}
 	return &sched.Scenario{
 		Name: name,
 		Setup: func(e *sched.Exec) ([]sched.Thread, func()) {
@@ -215,11 +224,14 @@ func multi(k, limit int) *sched.Scenario {
 				so = append(so, dagsync.MaxAsyncConcurrency(limit))
 			}
 			w := schedfx.New(e, schedfx.Options{Pubs: k, ChainLen: 3, Announce: true, SubOpts: so})
+			if failFirst {
+				w.FailReq["0|1|0"] = true
+			}
 			var threads []sched.Thread
 			for pi := 0; pi < k; pi++ {
 				pi := pi
 				threads = append(threads, sched.Thread{Name: fmt.Sprintf("A%d", pi), Fn: func() {
-					for h := 1; h <= 2; h++ {
+					for h := 1; h <= heads; h++ {
 						e.Log("A%d announce pub%d[%d]", pi, pi, h)
 						if err := w.Sub.Announce(context.Background(), w.Chains[pi].Cids[h], w.Pubs[pi].AddrInfo()); err != nil {
 							e.Log("A%d announce-error %v", pi, err)
@@ -239,7 +251,7 @@ func multi(k, limit int) *sched.Scenario {
 			type span struct{ pub, b, e int }
 			var spans []span
 			for pi := 0; pi < k; pi++ {
-				out = append(out, perPublisher(name, pi, lv, f, 2, false)...)
+				out = append(out, perPublisher(name, pi, lv, f, heads, false)...)
 				// sync spans: from the first request of a batch to its last hook
 				hooks, hpos := lv.Hooks[pi], lv.HookPos[pi]
 				idx := 0
@@ -387,7 +399,7 @@ func TestCheck(t *testing.T) {
 	}()
 	thorough := vp.Thorough()
 	bound := 2
-	scs := []*sched.Scenario{burstOf("S6-reannounce-synced-head-then-new", -1, []int{0, 1, 2}), burst("S1-burst", -1), multi(2, 0), multi(2, 1), mixed(), scoped()}
+	scs := []*sched.Scenario{burstOf("S6-reannounce-synced-head-then-new", -1, []int{0, 1, 2}), multiOf(3, 1, 1, true), burst("S1-burst", -1), multi(2, 0), multi(2, 1), mixed(), scoped()}
 	if thorough {
 		scs = append(scs, burst("S2-burst-failing-request", 2), multi(2, 2), multi(3, 1), multi(3, 2))
 	}
